@@ -703,6 +703,10 @@ func (em *emitter) emitSelect(selectNode *ast.Select) {
 	em.fb.enterStack()
 
 	chs := make([]int8, len(selectNode.Cases))
+	// sends contains, for each send case, the register of the value to send.
+	// These values are all evaluated before the 'case' instructions, so each
+	// one needs its own register.
+	sends := make([]int8, len(selectNode.Cases))
 	ok := em.fb.newRegister(reflect.Bool)
 	value := [4]int8{
 		intRegister:     em.fb.newRegister(reflect.Int),
@@ -729,7 +733,8 @@ func (em *emitter) emitSelect(selectNode *ast.Select) {
 			chType := em.typ(chExpr)
 			elemType := chType.Elem()
 			chs[i] = em.emitExpr(chExpr, chType)
-			em.emitExprR(cas.Value, elemType, value[kindToType(elemType.Kind())])
+			sends[i] = em.fb.newRegister(elemType.Kind())
+			em.emitExprR(cas.Value, elemType, sends[i])
 		}
 	}
 
@@ -752,10 +757,7 @@ func (em *emitter) emitSelect(selectNode *ast.Select) {
 			em.fb.emitCase(false, reflect.SelectRecv, value[kindToType(elemType.Kind())], chs[i])
 		case *ast.Send:
 			// ch <- v
-			chExpr := comm.Channel
-			chType := em.typ(chExpr)
-			elemType := chType.Elem()
-			em.fb.emitCase(false, reflect.SelectSend, value[kindToType(elemType.Kind())], chs[i])
+			em.fb.emitCase(false, reflect.SelectSend, sends[i], chs[i])
 		}
 		em.fb.emitGoto(casesLabel[i])
 	}
